@@ -290,6 +290,11 @@ var c10CLICmds = []struct {
 	{[]string{"lint", "@LOG@", "@BOOK@"}, true, false, false},
 	{[]string{"lint", "@BOOK@", "@LOG@"}, false, true, false},
 	{[]string{"summary", "2021/01/01", "2030/05/05"}, true, true, false},
+	{[]string{"reg", "-f", "."}, true, true, false},
+	{[]string{"reg", "-s", "x"}, true, true, false},
+	{[]string{"reg", "-s", "x", "-g"}, true, true, false},
+	{[]string{"reg", "--csv", "-s", "x"}, true, true, false},
+	{[]string{"bal", "-c"}, true, true, false},
 	{[]string{"summary", "today"}, true, true, true},
 	{[]string{"summary", "2021/01/09"}, true, true, true},
 	// an element or food nothing mentions: the files must still be read
@@ -306,7 +311,7 @@ var c10CLICmds = []struct {
 
 var c10Shapes = []string{"dir", "long-entry", "long-comment", "long-note", "long-heading"}
 var c10Sizes = []int{64 * 1024, 64*1024 + 1, 70 * 1024, 200 * 1024}
-var c10Positions = []string{"first", "middle", "last", "first-then-big"}
+var c10Positions = []string{"first", "middle", "last", "first-then-big", "first-both-big"}
 
 type c10CLICase struct {
 	Cmd      int    `json:"cmd"`
@@ -349,12 +354,16 @@ func c10LongFile(isLog bool, shape string, size int, pos string) string {
 		return rec[:i] + long + rec[i:]
 	}
 	switch pos {
-	case "first-then-big":
+	case "first-both-big", "first-then-big":
 		// the long line at the very beginning, then several hundred KiB of ordinary records: a reader that skips ahead
 		// (to the tail of a big file, say) must still notice what it skipped
 		recs[0] = ins(recs[0])
 		var sb strings.Builder
-		for i := 0; sb.Len() < 400*1024; i++ {
+		fill := 400 * 1024
+		if pos == "first-both-big" {
+			fill = 1200 * 1024 // and the other file is that big too (see checkC10CLI)
+		}
+		for i := 0; sb.Len() < fill; i++ {
 			if isLog {
 				fmt.Fprintf(&sb, "%s:\n  meal: 1\n  snack%d: 2\n", vFmtDay(10+i%3000, ""), i%7)
 			} else {
@@ -562,6 +571,15 @@ func checkC10CLI(c c10CLICase, ctx *vCtx) *vFailure {
 			lp = vWriteFile("c10-log.yaml", c10LongFile(true, shape, size, c.Pos))
 		} else {
 			bp = vWriteFile("c10-book.yaml", c10LongFile(false, shape, size, c.Pos))
+		}
+		if c.Pos == "first-both-big" {
+			// the readable file is large as well (both above 1 MiB): whatever a command does for big inputs applies to both
+			big, _ := c10BigFile(!onLog, 1200*1024/33)
+			if onLog {
+				bp = vWriteFile("c10-book.yaml", big)
+			} else {
+				lp = vWriteFile("c10-log.yaml", big)
+			}
 		}
 	}
 	run := func() vRun {
